@@ -64,7 +64,7 @@ VARIANT_CFGS = collections.OrderedDict([   # cfg -> invariant(s) TLC must report
 ])
 LIVE_CFGS = collections.OrderedDict([      # temporal checking (FairSpec): cfg -> property TLC must report violated (None: must hold)
     ("asyncio_live", None), ("asyncio_live_two", None), ("asyncio_live_split", None), ("asyncio_live_join", None),
-    ("asyncio_var_single_live", "Live_C17_Settles")])
+    ("asyncio_var_single_live", "Live_C17_Settles"), ("asyncio_var_consumed_live", "Live_C17_Settles")])
 
 
 # ------------------------------------------------------------------------------------------- scenarios
@@ -333,7 +333,7 @@ def live_runs(work, res):
             raise check.ToolError("variant %s is not flagged by TLC (%s expected, %s reported): the property is vacuous for it" % (cfg, want, bad))
         else:
             res.notes.append("TLC %s (weak fairness of the loop thread): %s" % (cfg, "Live_C17_Woken and Live_C17_Settles hold" if want is None else
-                                                                              want + " violated as expected (variant single_waker: the busy loop of the code before 0061559)"))
+                                                                              want + " violated as expected (variant: busy loop)"))
 
 
 def model_runs(tier, work, res):
